@@ -1,4 +1,308 @@
-import PycfModel.Model.Cast
+import PycfModel.Model.RoundTrip
+set_option linter.unusedSimpArgs false
+set_option linter.unusedVariables false
+/-!
+C15 — serialise / validate round trip is lossless.
+
+`C15_cast_roundtrip`: for every JSON value `j`, casting the dump of the cast of `j` returns the cast of `j`
+(the generic half of every model: unmodelled resources, unmodelled properties of modelled ones), over an arbitrary
+engine that satisfies three stated laws. `C15_bool_*`, `C15_binary_*`, `C15_colon_*`: each custom leaf validator
+accepts its own dump and returns it. The typed resource models are pydantic-core's: their round trip is checked on
+the implementation only (see DESIGN.md, C15 partial).
+-/
 namespace PycfModel.Cast
-theorem C15_placeholder : True := trivial
+open PycfModel PycfModel.Text
+
+/-! ### Round-trippable values -/
+
+mutual
+  /-- `RT E g v`: every piece of `v` is re-read as itself — a string leaf is its own cast, a generic object is not
+      taken for a property model or a function once its members are cast, a model / function object is recognised again -/
+  def RT (E : Engine) (g : String → CV) : CV → Prop
+    | .str s => g s = .str s
+    | .list xs => RTList E g xs
+    | .generic fs => (isFunctionObj (dumpMembers fs) = false ∧ E.propertyModel (.obj (dumpMembers fs)) = none) ∧ RTMembers E g fs
+    | .model cls raw => ∃ kvs, raw = .obj kvs ∧ kvs.isEmpty = false ∧ isFunctionObj kvs = false ∧ E.propertyModel (.obj kvs) = some cls
+    | .fn raw => ∃ kvs, raw = .obj kvs ∧ isFunctionObj kvs = true
+    | _ => True
+  def RTList (E : Engine) (g : String → CV) : List CV → Prop
+    | [] => True
+    | x :: xs => RT E g x ∧ RTList E g xs
+  def RTMembers (E : Engine) (g : String → CV) : List (String × CV) → Prop
+    | [] => True
+    | (_, v) :: rest => RT E g v ∧ RTMembers E g rest
+end
+
+theorem isFunctionObj_nonempty (kvs : List (String × J)) (h : isFunctionObj kvs = true) : kvs.isEmpty = false := by
+  cases kvs with
+  | nil => simp [isFunctionObj] at h
+  | cons a r => rfl
+
+mutual
+  /-- a round-trippable value is returned by casting its dump -/
+  theorem rt_sound (E : Engine) (g : String → CV) (hE : E.propertyModel (.obj []) = none) :
+      (v : CV) → RT E g v → castWith E g (dump v) = v
+    | .null, _ => by simp [dump, castWith]
+    | .bool _, _ => by simp [dump, castWith]
+    | .int _, _ => by simp [dump, castWith]
+    | .num _, _ => by simp [dump, castWith]
+    | .typed _ _, _ => by simp [dump, castWith]
+    | .str s, h => by simpa [dump, castWith, RT] using h
+    | .list xs, h => by
+      simp only [dump, castWith]
+      rw [rt_sound_list E g hE xs (by simpa [RT] using h)]
+    | .generic fs, h => by
+      have h' : (isFunctionObj (dumpMembers fs) = false ∧ E.propertyModel (.obj (dumpMembers fs)) = none) ∧ RTMembers E g fs := by
+        simpa [RT] using h
+      simp only [dump, castWith]
+      cases hfs : fs with
+      | nil => simp [dumpMembers]
+      | cons a r =>
+        obtain ⟨k, v⟩ := a
+        have hne : (dumpMembers ((k, v) :: r)).isEmpty = false := by simp [dumpMembers]
+        rw [hfs] at h'
+        simp only [hne, h'.1.1, h'.1.2, Bool.false_eq_true, if_false]
+        rw [rt_sound_members E g hE _ h'.2]
+    | .model cls raw, h => by
+      obtain ⟨kvs, hr, hne, hf, hm⟩ : ∃ kvs, raw = .obj kvs ∧ kvs.isEmpty = false ∧ isFunctionObj kvs = false ∧ E.propertyModel (.obj kvs) = some cls := by
+        simpa [RT] using h
+      subst hr
+      simp [dump, castWith, hne, hf, hm]
+    | .fn raw, h => by
+      obtain ⟨kvs, hr, hf⟩ : ∃ kvs, raw = .obj kvs ∧ isFunctionObj kvs = true := by simpa [RT] using h
+      subst hr
+      simp [dump, castWith, isFunctionObj_nonempty kvs hf, hf]
+  theorem rt_sound_list (E : Engine) (g : String → CV) (hE : E.propertyModel (.obj []) = none) :
+      (xs : List CV) → RTList E g xs → castListWith E g (dumpList xs) = xs
+    | [], _ => by simp [dumpList, castListWith]
+    | x :: xs, h => by
+      have h' : RT E g x ∧ RTList E g xs := by simpa [RTList] using h
+      simp only [dumpList, castListWith, rt_sound E g hE x h'.1, rt_sound_list E g hE xs h'.2]
+  theorem rt_sound_members (E : Engine) (g : String → CV) (hE : E.propertyModel (.obj []) = none) :
+      (fs : List (String × CV)) → RTMembers E g fs → castMembersWith E g (dumpMembers fs) = fs
+    | [], _ => by simp [dumpMembers, castMembersWith]
+    | (k, v) :: rest, h => by
+      have h' : RT E g v ∧ RTMembers E g rest := by simpa [RTMembers] using h
+      simp only [dumpMembers, castMembersWith, rt_sound E g hE v h'.1, rt_sound_members E g hE rest h'.2]
+end
+
+/-! ### Every cast value is round-trippable -/
+
+/-- the laws of the engine the theorem needs (each is evaluated on every object / string the check observes) -/
+structure Laws (E : Engine) (g : String → CV) : Prop where
+  /-- an empty object is no property model (`_Auxiliar`'s validator rejects it) -/
+  empty : E.propertyModel (.obj []) = none
+  /-- an object that is no property model is none either once its members are cast (typed members are accepted
+      wherever their text was, never the other way round) -/
+  generic : ∀ kvs, E.propertyModel (.obj kvs) = none → E.propertyModel (.obj (dumpMembers (castMembersWith E g kvs))) = none
+  /-- `g` is the string cast: one level of decoding over itself (no fuel ran out) -/
+  fix : ∀ s, g s = strStep E g s
+
+theorem isFunctionObj_cast (E : Engine) (g : String → CV) (kvs : List (String × J)) :
+    isFunctionObj (dumpMembers (castMembersWith E g kvs)) = isFunctionObj kvs := by
+  match kvs with
+  | [] => rfl
+  | [(k, v)] => simp [castMembersWith, dumpMembers, isFunctionObj]
+  | (k, v) :: (k2, v2) :: r => simp [castMembersWith, dumpMembers, isFunctionObj]
+
+theorem scalarUnion_cases (E : Engine) (s : String) :
+    (∃ b, scalarUnion E s = .bool b) ∨ (∃ i, scalarUnion E s = .int i) ∨ (∃ k p, scalarUnion E s = .typed k p) ∨ scalarUnion E s = .str s := by
+  unfold scalarUnion
+  repeat' split
+  all_goals simp
+
+theorem rt_of_scalarUnion (E : Engine) (g : String → CV) (s : String) (hs : g s = scalarUnion E s) : RT E g (scalarUnion E s) := by
+  rcases scalarUnion_cases E s with ⟨b, h⟩ | ⟨i, h⟩ | ⟨k, p, h⟩ | h
+  · rw [h]; simp [RT]
+  · rw [h]; simp [RT]
+  · rw [h]; simp [RT]
+  · rw [h]; simp only [RT]; rw [hs, h]
+
+theorem sz_pos (v : CV) : 0 < v.sz := by cases v <;> simp [CV.sz] <;> omega
+
+/-- all values below a size are round-trippable whenever they are casts -/
+def Below (E : Engine) (g : String → CV) (n : Nat) : Prop := ∀ v : CV, v.sz ≤ n → ∀ y, castWith E g y = v → RT E g v
+
+theorem rt_list_of_below (E : Engine) (g : String → CV) (n : Nat) (ih : Below E g n) :
+    ∀ xs : List J, szList (castListWith E g xs) ≤ n → RTList E g (castListWith E g xs)
+  | [], _ => by simp [castListWith, RTList]
+  | x :: xs, h => by
+    simp only [castListWith, szList] at h
+    simp only [castListWith, RTList]
+    exact ⟨ih _ (by omega) x rfl, rt_list_of_below E g n ih xs (by omega)⟩
+
+theorem rt_members_of_below (E : Engine) (g : String → CV) (n : Nat) (ih : Below E g n) :
+    ∀ kvs : List (String × J), szMembers (castMembersWith E g kvs) ≤ n → RTMembers E g (castMembersWith E g kvs)
+  | [], _ => by simp [castMembersWith, RTMembers]
+  | (k, v) :: rest, h => by
+    simp only [castMembersWith, szMembers] at h
+    simp only [castMembersWith, RTMembers]
+    exact ⟨ih _ (by omega) v rfl, rt_members_of_below E g n ih rest (by omega)⟩
+
+theorem rt_obj (E : Engine) (g : String → CV) (L : Laws E g) (n : Nat) (ih : Below E g n) (kvs : List (String × J))
+    (hsz : (castWith E g (.obj kvs)).sz ≤ n + 1) : RT E g (castWith E g (.obj kvs)) := by
+  simp only [castWith] at hsz ⊢
+  by_cases he : kvs.isEmpty = true
+  · simp only [he, if_true]
+    simp [RT, RTMembers, dumpMembers, isFunctionObj, L.empty]
+  · have he' : kvs.isEmpty = false := by simpa using he
+    simp only [he', Bool.false_eq_true, if_false] at hsz ⊢
+    by_cases hf : isFunctionObj kvs = true
+    · simp only [hf, if_true]
+      simp only [RT]; exact ⟨kvs, rfl, hf⟩
+    · have hf' : isFunctionObj kvs = false := by simpa using hf
+      simp only [hf', Bool.false_eq_true, if_false] at hsz ⊢
+      cases hm : E.propertyModel (.obj kvs) with
+      | some cls => simp only [RT]; exact ⟨kvs, rfl, he', hf', hm⟩
+      | none =>
+        simp only [hm] at hsz
+        simp only [RT]
+        refine ⟨⟨?_, L.generic kvs hm⟩, rt_members_of_below E g n ih kvs (by simp only [CV.sz] at hsz; omega)⟩
+        rw [isFunctionObj_cast]; exact hf'
+
+theorem rt_str (E : Engine) (g : String → CV) (L : Laws E g) (n : Nat) (ih : Below E g n) (s : String)
+    (hsz : (g s).sz ≤ n + 1) : RT E g (g s) := by
+  have hfix := L.fix s
+  unfold strStep at hfix
+  cases hj : E.jsonLoads s with
+  | none =>
+    simp only [hj] at hfix
+    rw [hfix]; exact rt_of_scalarUnion E g s hfix
+  | some d =>
+    simp only [hj] at hfix
+    have hself : ∀ v, g s = v → v = .str s → RT E g v := by
+      intro v h1 h2; subst h2; simpa [RT] using h1
+    cases d with
+    | null => exact hself _ rfl (by rw [hfix]; simp [fromDecoded])
+    | leaf k p => exact hself _ rfl (by rw [hfix]; simp [fromDecoded])
+    | str t => exact hself _ rfl (by rw [hfix]; simp [fromDecoded])
+    | bool b => rw [hfix]; simp [fromDecoded, RT]
+    | int i => rw [hfix]; simp [fromDecoded, RT]
+    | num r =>
+      rw [hfix]; simp only [fromDecoded]
+      cases E.floatInt r <;> simp [RT]
+    | obj kvs =>
+      simp only [fromDecoded] at hfix
+      by_cases hf : isFunctionObj kvs = true
+      · simp only [hf, if_true] at hfix
+        rw [hfix]; simp only [RT]; exact ⟨kvs, rfl, hf⟩
+      · have hf' : isFunctionObj kvs = false := by simpa using hf
+        simp only [hf', Bool.false_eq_true, if_false] at hfix
+        cases hm : E.propertyModel (.obj kvs) with
+        | some cls =>
+          simp only [hm] at hfix
+          rw [hfix]; simp only [RT]
+          refine ⟨kvs, rfl, ?_, hf', hm⟩
+          cases kvs with
+          | nil => rw [L.empty] at hm; cases hm
+          | cons a r => rfl
+        | none =>
+          simp only [hm] at hfix
+          exact hself _ rfl hfix
+    | arr xs =>
+      simp only [fromDecoded] at hfix
+      cases hl : E.listUnion s with
+      | none => simp only [hl] at hfix; exact hself _ rfl hfix
+      | some ys =>
+        simp only [hl] at hfix
+        rw [hfix] at hsz ⊢
+        simp only [RT]
+        exact rt_list_of_below E g n ih ys (by simp only [CV.sz] at hsz; omega)
+
+/-- every cast is round-trippable (strong induction on the size of the result) -/
+theorem rt_below (E : Engine) (g : String → CV) (L : Laws E g) : ∀ n, Below E g n
+  | 0 => by intro v hv; have := sz_pos v; omega
+  | n + 1 => by
+    have ih := rt_below E g L n
+    intro v hv y hy
+    subst hy
+    cases y with
+    | null => simp [castWith, RT]
+    | bool b => simp [castWith, RT]
+    | int i => simp [castWith, RT]
+    | num r => simp [castWith, RT]
+    | leaf k p => simp [castWith, RT]
+    | str s => simp only [castWith] at hv ⊢; exact rt_str E g L n ih s hv
+    | arr xs =>
+      simp only [castWith] at hv ⊢
+      simp only [RT]
+      exact rt_list_of_below E g n ih xs (by simp only [CV.sz] at hv; omega)
+    | obj kvs => exact rt_obj E g L n ih kvs hv
+
+/-- C15_cast_roundtrip_general: over any string cast `g` that is its own one-level unfolding -/
+theorem C15_cast_roundtrip_general (E : Engine) (g : String → CV) (L : Laws E g) (j : J) :
+    castWith E g (dump (castWith E g j)) = castWith E g j :=
+  rt_sound E g L.empty _ (rt_below E g L _ _ (Nat.le_refl _) j rfl)
+
+theorem strCast_succ (E : Engine) (k : Nat) (s : String) : strCast E (k + 1) s = strStep E (strCast E k) s := by
+  simp only [strCast, strStep]
+  cases E.jsonLoads s <;> rfl
+
+/-- C15_cast_roundtrip: `cast (dump (cast j)) = cast j` for every JSON value, whenever the fuel sufficed
+    (one more level changes nothing) and the engine satisfies the two object laws -/
+theorem C15_cast_roundtrip (E : Engine) (fuel : Nat)
+    (hfuel : ∀ s, strCast E (fuel + 1) s = strCast E fuel s)
+    (hempty : E.propertyModel (.obj []) = none)
+    (hgeneric : ∀ kvs, E.propertyModel (.obj kvs) = none →
+      E.propertyModel (.obj (dumpMembers (castMembersWith E (strCast E fuel) kvs))) = none)
+    (j : J) : cast E fuel (dump (cast E fuel j)) = cast E fuel j :=
+  C15_cast_roundtrip_general E (strCast E fuel)
+    ⟨hempty, hgeneric, fun s => by rw [← strCast_succ, hfuel]⟩ j
+
+/-! ### The excluded point, before the repair of D32: a quoted JSON string did not round-trip -/
+
+/-- the engine on the two strings `"\"[1]\""` and `"[1]"` (what json.loads answers) -/
+def quotedEngine : Engine :=
+  { jsonLoads := fun s => if s = "\"[1]\"" then some (.str "[1]") else if s = "[1]" then some (.arr [.int 1]) else none
+    boolOf := fun _ => none, intOf := fun _ => none, dateOf := fun _ => none, datetimeOf := fun _ => none
+    ip4Of := fun _ => none, ip6Of := fun _ => none, floatInt := fun _ => none, propertyModel := fun _ => none
+    listUnion := fun s => if s = "[1]" then some [.int 1] else none }
+
+/-- the string cast before the repair: a decoded JSON string was unwrapped and cast as a scalar -/
+def strCastOld (E : Engine) (fuel : Nat) (s : String) : CV :=
+  match E.jsonLoads s with
+  | some (.str t) => scalarUnion E t
+  | _ => strCast E fuel s
+
+/-- C15_quoted_json_needed_repair: with the unwrapping, the dump of the cast of `"\"[1]\""` is re-read as a list -/
+theorem C15_quoted_json_needed_repair :
+    strCastOld quotedEngine 2 "\"[1]\"" = .str "[1]" ∧ strCastOld quotedEngine 2 "[1]" = .list [.int 1] := by
+  constructor <;> simp [strCastOld, quotedEngine, scalarUnion, strCast, fromDecoded, castListWith, castWith]
+
+/-! ### Leaf validators accept their own dumps -/
+
+/-- C15_bool_roundtrip: whatever `SemiStrictBool` accepted, it accepts the bool it dumps, with the same result -/
+theorem C15_bool_roundtrip (x : J) (b : Bool) (h : semiBool x = some b) : semiBool (.bool b) = some b := rfl
+
+/-- C15_binary_roundtrip: the bytes a binary value dumps are accepted and returned unchanged -/
+theorem C15_binary_roundtrip (x : BinIn) (b : List Nat) (h : validateBinary x = some b) : validateBinary (.bytes b) = some b := rfl
+
+/-- C15_binary_guard_needed: decoding the bytes again (the code before the repair of D12) changes `QUJDRA==`
+    (b"ABCD" → b"\x00\x10\x83") and rejects `QQ==` (b"A") -/
+theorem C15_binary_guard_needed :
+    validateBinaryOld (.text "QUJDRA==".toList) = some [65, 66, 67, 68] ∧
+    validateBinaryOld (.bytes [65, 66, 67, 68]) = some [0, 16, 131] ∧
+    validateBinaryOld (.text "QQ==".toList) = some [65] ∧
+    validateBinaryOld (.bytes [65]) = none := by decide +kernel
+
+/-- C15_colon_roundtrip: operator names dump without colons, and removing colons again changes nothing -/
+theorem C15_colon_roundtrip (s : List Char) : removeColon (removeColon s) = removeColon s := by
+  simp [removeColon, List.filter_filter]
+
+theorem C15_colon_example : removeColon "ForAllValues:StringLike".toList = "ForAllValuesStringLike".toList := by decide +kernel
+
+-- Non-vacuity: an engine with a date, a JSON list text and a property model satisfies the laws at fuel 2
+def sampleEngine : Engine :=
+  { jsonLoads := fun s => if s = "[\"2019-12-04\",5]" then some (.arr [.str "2019-12-04", .int 5]) else none
+    boolOf := fun _ => none, intOf := fun _ => none
+    dateOf := fun s => if s = "2019-12-04" then some "2019-12-04" else none
+    datetimeOf := fun _ => none, ip4Of := fun _ => none, ip6Of := fun _ => none, floatInt := fun _ => none
+    propertyModel := fun _ => none
+    listUnion := fun s => if s = "[\"2019-12-04\",5]" then some [.leaf "date" "2019-12-04", .int 5] else none }
+
+example : cast sampleEngine 2 (.obj [("When", .str "[\"2019-12-04\",5]")]) =
+    .generic [("When", .list [.typed "date" "2019-12-04", .int 5])] := by
+  simp [cast, castWith, castMembersWith, strCast, sampleEngine, isFunctionObj, fromDecoded, castListWith]
+  decide +kernel
+
 end PycfModel.Cast
